@@ -20,6 +20,9 @@ from vmon.env import VERIF, ensure_deps
 
 
 def main() -> int:
+    import signal  # noqa: PLC0415
+
+    signal.signal(signal.SIGPIPE, signal.SIG_DFL)  # `./check ... | head` must not end in a traceback
     ap = argparse.ArgumentParser()
     ap.add_argument("prop")
     ap.add_argument("--tier", default=os.environ.get("VERIF_TIER", "quick"), choices=["quick", "thorough"])
